@@ -26,6 +26,7 @@ def builder(meaning, extra_requires=()):
     """contract shape shared by every CNF constraint builder with signature (lits, ..., check)"""
     return {
         'property': ['C04', 'C10', 'C19'],
+        'native': 'checks.C04:native_cnf',
         'tags': {'sat(a,': ['C04'], 'ctake(': ['C19'], 'clen(self._clauses) >=': ['C19'], '_numvar': ['C10'],
                  'cmaxabs': ['C10'], 'chaszero': ['C10']},
         'ghost_params': {'a': 'asg'},
